@@ -22,7 +22,7 @@ RULE = ('histories of 1-10 steps: unit environments opened with valid units (dic
 SHARDS = {'quick': 16, 'thorough': 16}
 MIN_NONTRIVIAL = {'quick': 600, 'thorough': 15000}
 REQUIRED_CLASSES = ['scope-valid', 'scope-nested', 'scope-repeated', 'scope-body-raises', 'fail:duplicate-standard', 'fail:duplicate-outer',
-                    'fail:prefixed-clash', 'fail:malformed', 'fail:malformed-entry-with-new-conversion-type', 'fail:entry-admits-an-unknown-prefix', 'custom-type-unit-used-inside-scope', 'fail-after-successes', 'form:dict', 'form:quantity', 'form:prefixes',
+                    'fail:prefixed-clash', 'fail:malformed', 'fail:malformed-entry-with-new-conversion-type', 'fail:entry-admits-an-unknown-prefix', 'custom-type-unit-used-inside-scope', 'fail-after-successes', 'form:dict', 'form:quantity', 'form:prefixes', 'form:builtin-type', 'nested-scopes-share-a-conversion-class',
                     'form:custom-type', 'dip:valid', 'dip:clash-second-unit', 'dip:unrelated-error', 'dip:expression', 'dip:add_unit',
                     'dip:nested-in-scope', 'dip:units-from-source']
 REQUIRED_MONITORS = ['scope_events', 'scope_end_digest_compares', 'failed_open_digest_compares', 'parse_digest_compares',
@@ -95,7 +95,8 @@ def setup():
     UE.UnitEnvironment.__init__ = init
     UE.UnitEnvironment.close = close_
     DIP.parse = parse
-    return dict(UE=UE.UnitEnvironment, Q=Quantity, DIP=DIP, log=log, CT=CustomUnitType, CT2=CustomUnitType2, hyg=tables.Hygiene(), keep=[])
+    from scinumtools.units.unit_types import StandardUnitType
+    return dict(UE=UE.UnitEnvironment, Q=Quantity, DIP=DIP, log=log, CT=CustomUnitType, CT2=CustomUnitType2, STD=StandardUnitType, hyg=tables.Hygiene(), keep=[])
 
 
 # ------------------------------------------------------------------ generation
@@ -104,7 +105,7 @@ def gen_units(rng, names, fail=None):
     """list of unit definitions [sym, form, magnitude, prefixes, custom_type]"""
     out = []
     for s in names:
-        form = rng.choice(['dict', 'dict', 'quantity', 'prefixes', 'custom-type'])
+        form = rng.choice(['dict', 'dict', 'quantity', 'prefixes', 'custom-type', 'custom-type', 'builtin-type'])
         out.append(dict(sym=s, form=form, mag=rng.choice([2.0, 0.5, 3.0, 12.5, 1e3]), pre=['k', 'M'] if form == 'prefixes' else None))
     if fail:
         kind, pos = fail
@@ -117,7 +118,7 @@ def gen_units(rng, names, fail=None):
     return out
 
 
-def gen_scope(rng, depth, avail, outer):
+def gen_scope(rng, depth, avail, outer, outer_ct=False):
     k = rng.randint(1, 3)
     names = [n for n in avail if n not in outer]
     rng.shuffle(names)
@@ -127,6 +128,14 @@ def gen_scope(rng, depth, avail, outer):
         kinds = ['duplicate-standard', 'prefixed-clash', 'malformed'] + (['duplicate-outer'] if outer else [])
         fail = [rng.choice(kinds), rng.randint(0, k)]
     units = gen_units(rng, names, fail)
+    shares = False
+    if outer_ct and rng.random() < 0.6:
+        # a unit of this (nested) scope uses the conversion class that an enclosing scope has registered already
+        for u in units:
+            if u['form'] in ('dict', 'quantity', 'prefixes', 'builtin-type', 'custom-type'):
+                u['form'], u['pre'] = 'custom-type', None
+                shares = True
+                break
     if fail and fail[0] == 'duplicate-outer':
         for u in units:
             if u['sym'] == '__outer__':
@@ -137,12 +146,12 @@ def gen_scope(rng, depth, avail, outer):
         for _ in range(rng.choice([0, 1, 1, 2])):
             r = rng.random()
             if r < 0.45 and depth < 3:
-                body.append(gen_scope(rng, depth + 1, avail, inner_outer))
+                body.append(gen_scope(rng, depth + 1, avail, inner_outer, outer_ct or any(u['form'] == 'custom-type' for u in units)))
             elif r < 0.7:
                 body.append(gen_dip(rng, inner_outer))
             else:
                 body.append(dict(t='use'))
-    return dict(t='scope', units=units, fail=fail, body=body, body_raises=(not fail and rng.random() < 0.25), how=rng.choice(['with', 'with', 'manual']))
+    return dict(t='scope', units=units, fail=fail, body=body, body_raises=(not fail and rng.random() < 0.25), how=rng.choice(['with', 'with', 'manual']), shares_class=shares)
 
 
 def gen_dip(rng, outer):
@@ -212,6 +221,8 @@ def unit_dict(ctx, u):
         d['prefixes'] = list(u['pre'])
     if u['form'] == 'custom-type':
         d['definition'] = ctx['CT']
+    if u['form'] == 'builtin-type':
+        d['definition'] = ctx['STD']         # a conversion class that is registered already: the standard linear one
     return d
 
 
@@ -276,8 +287,10 @@ def run_scope(sc, ctx, st, active):
     if sc.get('repeated'):
         st['classes'].add('scope-repeated')
     for u in sc['units']:
-        if u['form'] in ('dict', 'quantity', 'prefixes', 'custom-type'):
+        if u['form'] in ('dict', 'quantity', 'prefixes', 'custom-type', 'builtin-type'):
             st['classes'].add('form:' + u['form'])
+    if sc.get('shares_class') and active:
+        st['classes'].add('nested-scopes-share-a-conversion-class')
     if sc['fail']:
         st['classes'].add('fail:' + sc['fail'][0])
         if sc['fail'][1] > 0:
